@@ -16,7 +16,9 @@ from harness.runner import Check
 use_repo()
 
 
-def make_items(chains, log=None):
+def make_items(chains, log=None, falsy=False):
+    """Scripted bounded items; falsy: items that are EMPTY containers (len() == 0, so bool(item) is False) - as an edit
+    collection without sub-edits is - which nothing in the selection routines may mistake for "no item"."""
     from graphtage.bounds import Range
 
     class Item:
@@ -44,6 +46,13 @@ def make_items(chains, log=None):
         def __repr__(self):
             return "Item%d%s" % (self.idx, self.chain[self.p])
 
+    if falsy:
+        class EmptyItem(Item):
+            __slots__ = ()
+
+            def __len__(self):
+                return 0
+        return [EmptyItem(i + 1, c) for i, c in enumerate(chains)]
     return [Item(i + 1, c) for i, c in enumerate(chains)]
 
 
@@ -121,6 +130,44 @@ def run_schedule(chains, with_search_history=False):
     try:
         with deadline(2.0):
             o["best"] = getattr(gb.min_bounded(iter(items)), "idx", 0)
+            o["finished"] = True
+    except Expired:
+        pass
+    except Exception as ex:
+        o["finished"], o["exc"] = True, "%s: %s" % (type(ex).__name__, str(ex)[:100])
+    ev.append(o)
+    # the same three selections over items that are empty containers (falsy): an item is an item whatever bool() says
+    items = make_items(chains, falsy=True)
+    o = {"alg": "min", "finished": False, "exc": "", "best": 0, "how": "falsy items"}
+    try:
+        with deadline(2.0):
+            o["best"] = getattr(gb.min_bounded(iter(items)), "idx", 0)
+            o["finished"] = True
+    except Expired:
+        pass
+    except Exception as ex:
+        o["finished"], o["exc"] = True, "%s: %s" % (type(ex).__name__, str(ex)[:100])
+    ev.append(o)
+    items = make_items(chains, falsy=True)
+    o = {"alg": "sort", "finished": False, "exc": "", "order": [], "how": "falsy items"}
+    try:
+        with deadline(2.0):
+            o["order"] = [it.idx for it in gb.sort(items)]
+            o["finished"] = True
+    except Expired:
+        pass
+    except Exception as ex:
+        o["finished"], o["exc"] = True, "%s: %s" % (type(ex).__name__, str(ex)[:100])
+    ev.append(o)
+    items = make_items(chains, falsy=True)
+    o = {"alg": "search", "variant": "plain", "finished": False, "exc": "", "best": 0, "lo": -1, "hi": -1, "how": "falsy items"}
+    try:
+        with deadline(2.0):
+            s = IterativeTighteningSearch(iter(items))
+            best = s.search()
+            b = s.bounds()
+            o["best"] = getattr(best, "idx", 0)
+            o["lo"], o["hi"] = enc(b.lower_bound), enc(b.upper_bound)
             o["finished"] = True
     except Expired:
         pass
